@@ -529,6 +529,10 @@ def _it_next(ip, st, itv):
     if isinstance(itv, Agg) and itv.tag == "rangefrom" and len(itv.fields) == 1 and isinstance(itv.fields[0], Int):
         a = itv.fields[0]
         return [(None, a, Agg([Int(bv.add(a.bits, bv.const(1, len(a.bits))))], "rangefrom"))]
+    if isinstance(itv, Opaque) and itv.tag == "cstep":
+        # (start..).step_by(k): start, start + k, ...
+        abits, step = itv.data
+        return [(None, Int(abits), Opaque("cstep", (bv.add(abits, bv.const(step, len(abits))), step)))]
     if isinstance(itv, Agg) and len(itv.fields) == 2 and all(isinstance(x, Int) for x in itv.fields) and itv.tag in (None, "range"):
         a, b = itv.fields
         c = bv.ult(a.bits, b.bits)
@@ -557,7 +561,7 @@ def m_citer_new(ip, st, fr, t, args):
     """into_iter / iter on an array of known length"""
     a = args[0]
     path = t["callee"]["path"] or ""
-    if isinstance(a, Opaque) and a.tag in ("citer", "czip", "cenum"):
+    if isinstance(a, Opaque) and a.tag in ("citer", "czip", "cenum", "cstep"):
         return a
     if isinstance(a, Agg) and a.tag in ("rangefrom", "range"):
         return a
@@ -614,6 +618,15 @@ def m_zip(ip, st, fr, t, args):
     if l is None or r is None:
         return None
     return Opaque("czip", (l, r))
+
+
+def m_step_by(ip, st, fr, t, args):
+    """(a..).step_by(constant)"""
+    l = m_citer_new(ip, st, fr, {"callee": t["callee"], "args": [t["args"][0]]}, [args[0]])
+    k = bv.to_int(args[1].bits) if isinstance(args[1], Int) else None
+    if isinstance(l, Agg) and l.tag == "rangefrom" and k:
+        return Opaque("cstep", (tuple(l.fields[0].bits), k))
+    return None
 
 
 def m_enumerate(ip, st, fr, t, args):
@@ -766,8 +779,9 @@ def standard_models():
         (lambda p, f: bool(_TRYFROM.search(p or "")), m_try_from_int),
         (lambda p, f: (p or "").startswith("anyhow::error::<impl anyhow::Error>::context"), m_identity0),
         (lambda p, f: p.endswith("::into_iter") or p in ("core::slice::<impl [T]>::iter", "core::array::<impl [T; N]>::iter"), m_citer_new),
-        (lambda p, f: p.endswith("Iterator>::next") and any(x in (f or "") for x in ("array::IntoIter<", "slice::Iter<", "ops::RangeFrom<", "ops::Range<", "iter::Zip<", "iter::Enumerate<")), m_citer_next),
+        (lambda p, f: p.endswith("Iterator>::next") and any(x in (f or "") for x in ("array::IntoIter<", "slice::Iter<", "ops::RangeFrom<", "ops::Range<", "iter::Zip<", "iter::Enumerate<", "iter::StepBy<")), m_citer_next),
         (lambda p, f: p == "std::iter::Iterator::zip", m_zip),
+        (lambda p, f: p == "std::iter::Iterator::step_by", m_step_by),
         (lambda p, f: p.split("::")[-1] in ("find", "position", "any", "all") and ("iter::Iterator" in p), m_iter_search),
         (lambda p, f: p == "std::iter::Iterator::enumerate", m_enumerate),
         (lambda p, f: p in ("core::slice::<impl [T]>::get", "std::slice::<impl [T]>::get", "core::slice::<impl [T]>::get_mut", "std::slice::<impl [T]>::get_mut") and "::<usize>" in (f or ""), m_slice_get),
@@ -777,6 +791,8 @@ def standard_models():
         (lambda p, f: p in ("core::bool::<impl bool>::then_some", "std::bool::<impl bool>::then_some", "core::bool::<impl bool>::then", "std::bool::<impl bool>::then"), m_bool_then),
         (lambda p, f: (p or "").startswith("core::fmt::rt::") or (p or "").startswith("std::fmt::Arguments") or (p or "").startswith("core::fmt::Arguments") or (p or "").startswith("std::fmt::rt::"), m_opaque("fmt")),
         (lambda p, f: (p or "").endswith(" as std::default::Default>::default") and (p or "")[1:].split(" ")[0] in ("u8", "u16", "u32", "u64", "u128", "usize", "i8", "i16", "i32", "i64", "i128", "isize", "bool"), m_default_scalar),
+        # `&x[..]` / `&mut x[..]`: the whole array / slice / vector as a slice - the same place
+        (lambda p, f: "RangeFull" in ((f or "") + (p or "")) and ((p or "").endswith("::index") or (p or "").endswith("::index_mut")), m_identity0),
         (lambda p, f: (p or "").startswith("anyhow::__private::"), m_anyhow),
         (lambda p, f: (p or "").startswith("anyhow::context::<impl anyhow::Context<") and ((p or "").endswith("::with_context") or (p or "").endswith("::context")), m_identity0),
     ]
